@@ -1026,7 +1026,7 @@ Qed.
 Definition clobber_spec : spec :=
   mkSpec [Some (mkE 1 false); Some (mkE 2 false); Some (mkE 3 false)]
          [SFd 0; SFd 1; SFd 2; SFd 0; SFd 1; SFd 2]
-         true 7 10 None false false (Some 2%Z).
+         true 7 10 None false false (Some 2%Z) [].
 
 Lemma clobber_spec_now :
   r_ret (fst (uv_spawn clobber_spec [WPid 32512%Z])) = (-2)%Z /\
@@ -1502,4 +1502,45 @@ Proof.
   split; [exact (spawn_ledger sp wo Hb Hsp)|].
   intros ops h s' evs N R I. apply (failed_spawn_no_exit ops s' evs h sp wo N R I).
   rewrite R1. lia.
+Qed.
+
+(* ------------------------------------------------------------------ *)
+(* J. the caller's signal mask                                          *)
+(* ------------------------------------------------------------------ *)
+Theorem spawn_restores_sigmask sp wo : r_mask (fst (uv_spawn sp wo)) = s_mask sp.
+Proof.
+  unfold uv_spawn.
+  destruct (init_stdio (s_stdio sp) (s_tbl sp) (s_fresh sp) 0 (s_sp_fail sp)) as [[[t1 ps] f1] err].
+  destruct err; [reflexivity|].
+  destruct (spawn_child t1 (pad3 3 (map snd ps)) f1 (s_pipe_fail sp) (s_fork_fail sp) (s_exec_err sp) wo)
+    as [[[[[eno t2] c] wrote] reaped] wo2].
+  destruct (open_streams (s_stdio sp) ps 0 t2) as [t3 streams].
+  destruct (s_pipe_fail sp); [reflexivity|].
+  unfold fork_sigmask. reflexivity.
+Qed.
+
+(* while the fork is in flight everything but the fatal signals is blocked, and
+   what the caller had blocked stays blocked *)
+Lemma block_from_spec : forall m i k,
+  nth k (block_from i m) false = (nth k m false || ((k <? length m) && (1 <=? i + k) && fork_blocked (i + k))).
+Proof.
+  induction m as [|b r IH]; intros i k; cbn [block_from].
+  - destruct k; reflexivity.
+  - destruct k as [|k]; cbn [nth length].
+    + rewrite Nat.add_0_r. reflexivity.
+    + rewrite IH. replace (S i + k) with (i + S k) by lia.
+      replace (S k <? S (length r)) with (k <? length r); [reflexivity|].
+      destruct (Nat.ltb_spec k (length r)), (Nat.ltb_spec (S k) (S (length r))); auto; lia.
+Qed.
+
+Lemma fork_child_mask m sig :
+  1 <= sig < length m ->
+  match fst (fork_sigmask m false) with
+  | Some cm => nth sig cm false = (nth sig m false || fork_blocked sig)
+  | None => False
+  end.
+Proof.
+  intros H. cbn [fork_sigmask fst]. rewrite block_from_spec. cbn [Nat.add].
+  destruct (Nat.ltb_spec sig (length m)); [|lia]. destruct (Nat.leb_spec 1 sig); [|lia].
+  reflexivity.
 Qed.
